@@ -82,6 +82,7 @@ def r1(ctx, fs):
     # sat_core::propagate: remaining watchers re-registered
     f = fs.fn(SC + 'propagate')
     env = LocalEnv(f)
+    env.local_role('p', lambda n, i: n.get('t') == 'smt::lit')        # the literal taken from the propagation queue
     ok = False
     for n in f.nodes():
         if n.get('k') == 'IfStmt':
